@@ -357,8 +357,20 @@ def m_str_rpartition(ex, st, args, kwargs, node):
     return [(st, VUnk("str.rpartition"))]
 
 
+def m_seq_endswith(ex, st, obj, args, kwargs, node, start=False):
+    sa, sb = ex._as_byteseq(st, obj), (ex._as_byteseq(st, args[0]) if args else None)
+    if sa is None or sb is None or len(args) != 1:
+        return ex.havoc_call(st, "bytes.endswith", args, node)
+    (n, e), (m, f) = sa, sb
+    j = z3.Int(fresh_name("j"))
+    off = z3.IntVal(0) if start else n - m
+    return [(st, VBool(z3.And(m <= n, z3.ForAll([j], z3.Implies(z3.And(j >= 0, j < m), e(off + j) == f(j))))))]
+
+
 def install_container_models(reg):
     common.install_bytesio(reg)
+    reg.method_models[("seq", "endswith")] = m_seq_endswith
+    reg.method_models[("seq", "startswith")] = lambda ex, st, o, a, k, n: m_seq_endswith(ex, st, o, a, k, n, start=True)
     reg.method_models[("XmlElem", "iter")] = m_xml_iter
     reg.attr_models[("XmlElem", "tag")] = lambda ex, st, o: VStr(TAG(o.t))
     reg.ext_models["str.rsplit"] = m_str_rsplit
@@ -785,6 +797,11 @@ class C08Executor(readfile.ReadFileExecutor):
         return super().call_method(st, obj, name, args, kwargs, node)
 
     def compare(self, st, op, a, b, node):
+        if op in ("Eq", "NotEq") and (isinstance(a, VSeq) and a.is_bytes or isinstance(b, VSeq) and b.is_bytes):
+            sa, sb = self._as_byteseq(st, a), self._as_byteseq(st, b)
+            if sa is not None and sb is not None:
+                t = self._bytes_eq(sa, sb)
+                return [(st, VBool(t if op == "Eq" else z3.Not(t)))]
         if op in ("Eq", "NotEq"):
             for x, y in ((a, b), (b, a)):
                 if isinstance(x, VExt) and x.sort == "CoderId" and isinstance(y, VBytes):
@@ -924,6 +941,51 @@ class C08Executor(readfile.ReadFileExecutor):
         # the quantifier -- the cases are exhaustive and exclusive path conditions added after `base`
         cases = [z3.And([z3.BoolVal(True)] + list(s_.pc[base:]) + [self.truth(s_, v_).t]) for (s_, v_) in r]
         return [(st, VGen(vars_, z3.And(conds), z3.Or(cases)))]
+
+    @staticmethod
+    def _byte_int(v):
+        """Int term of a byte value (undoing the Int2BV an intermediate bytes([x]) wrapped around an Int)."""
+        t = v.t
+        if z3.is_bv(t) and z3.is_app(t) and t.decl().kind() == z3.Z3_OP_INT2BV:
+            return t.arg(0)
+        return ops.int_term(v)
+
+    def _as_byteseq(self, st, v):
+        """(length term, elem(i) -> Int term) of a bytes-like value, or None."""
+        if isinstance(v, VSeq) and v.is_bytes:
+            return v.length, (lambda i, v=v: self._byte_int(v.elem(i)))
+        if isinstance(v, VBytes):
+            items = [self._byte_int(x) for x in v.items]
+
+            def el(i, items=items):
+                acc = items[-1] if items else z3.IntVal(0)
+                for k_ in range(len(items) - 2, -1, -1):
+                    acc = z3.If(i == k_, items[k_], acc)
+                return acc
+            return z3.IntVal(len(items)), el
+        return None
+
+    def _byteseq(self, n, el, tag=None):
+        return VSeq(z3.simplify(n), lambda i: VInt(el(i)), "byte", True, tag=tag)
+
+    def _bytes_eq(self, a, b):
+        (na, ea), (nb, eb) = a, b
+        j = z3.Int(fresh_name("j"))
+        return z3.And(na == nb, z3.ForAll([j], z3.Implies(z3.And(j >= 0, j < na), ea(j) == eb(j))))
+
+    def binop(self, st, op, a, b, node, inplace=False):
+        if op == "Mult":
+            for x, cnt in ((a, b), (b, a)):
+                sx = self._as_byteseq(st, x) if isinstance(x, (VBytes, VSeq)) else None
+                if sx is not None and isinstance(cnt, VInt) and cnt.const() is None and isinstance(x, VBytes) and len(x.items) == 1:
+                    c_ = ops.int_term(cnt)
+                    return [(st, self._byteseq(z3.If(c_ < 0, z3.IntVal(0), c_), lambda i, e=sx[1]: e(z3.IntVal(0)), tag=("repeat",)))]
+        if op == "Add":
+            sa, sb = self._as_byteseq(st, a), self._as_byteseq(st, b)
+            if sa is not None and sb is not None and (isinstance(a, VSeq) or isinstance(b, VSeq)):
+                (na, ea), (nb, eb) = sa, sb
+                return [(st, self._byteseq(na + nb, lambda i: z3.If(i < na, ea(i), eb(i - na)), tag=("concat",)))]
+        return super().binop(st, op, a, b, node, inplace)
 
     def b_setattr(self, st, args, kwargs, node):
         """setattr(obj, "<literal or loop-unrolled name>", value) is the attribute store obj.<name> = value."""
@@ -1894,6 +1956,71 @@ def _setattr_class(ex, st, base, attr, v, node):
     return [st]
 
 
+PBYTE = z3.Function("message_byte", I, I)        # the bytes of the symbolic message (0..255)
+PLEN = z3.Int("message_len")
+
+
+def p_message():
+    def mk(ex, st, name):
+        j = z3.Int("j!msg")
+        rng = z3.ForAll([j], z3.And(PBYTE(j) >= 0, PBYTE(j) <= 255), patterns=[PBYTE(j)])
+        return [(z3.And(PLEN >= 0, rng), VSeq(PLEN, lambda i: VInt(PBYTE(i)), "byte", True, tag=("message",)))]
+    return Maker(mk, desc="bytes of any length")
+
+
+def pkcs7_contracts(reg):
+    """PKCS#7 as used by the CryptAES wrapper (RFC 5652 6.3): pad appends p = bs - len % bs bytes of value p (1..bs, a FULL block
+    when the length is a multiple of bs); unpad of a well-formed padding removes exactly those p bytes.  What unpad does with
+    bytes that do NOT end in a well-formed padding (raise, or hand them back) is not prescribed here."""
+    out = []
+    BS = 16
+
+    def res_view(c):
+        r = c.result
+        return c.ex._as_byteseq(c.st, r) if isinstance(r, (VSeq, VBytes)) else None
+
+    def pad_post(c):
+        rv = res_view(c)
+        if rv is None:
+            return z3.BoolVal(False)
+        n, e = rv
+        p = BS - PLEN % BS
+        j = z3.Int("j!pad")
+        return z3.And(n == PLEN + p, z3.ForAll([j], z3.Implies(z3.And(j >= 0, j < n), e(j) == z3.If(j < PLEN, PBYTE(j), p))))
+    t = f"{AESFB}::_pkcs7_pad"
+    out.append(FnContract(target=t, params=[("data", p_message()), ("block_size", p_const(BS))], raises=[],
+                          ensures=[("data-followed-by-p-bytes-of-value-p-with-p-in-1..16", pad_post)],
+                          note="p = 16 - len(data) % 16: a whole block of padding for block-aligned data"))
+
+    def well_padded():
+        p = PBYTE(PLEN - 1)
+        j = z3.Int("j!wp")
+        return z3.And(PLEN > 0, p >= 1, p <= BS, p <= PLEN, z3.ForAll([j], z3.Implies(z3.And(j >= PLEN - p, j < PLEN), PBYTE(j) == p), patterns=[PBYTE(j)]))
+
+    def unpad_post(c):
+        rv = res_view(c)
+        if rv is None:
+            return z3.BoolVal(False)
+        n, e = rv
+        j = z3.Int("j!unpad")
+        return z3.Implies(well_padded(), z3.And(n == PLEN - PBYTE(PLEN - 1), z3.ForAll([j], z3.Implies(z3.And(j >= 0, j < n), e(j) == PBYTE(j)))))
+
+    def unpad_prefix(c):
+        rv = res_view(c)
+        if rv is None:
+            return z3.BoolVal(False)
+        n, e = rv
+        j = z3.Int("j!pre")
+        return z3.And(n <= PLEN, z3.ForAll([j], z3.Implies(z3.And(j >= 0, j < n), e(j) == PBYTE(j))))
+    t = f"{AESFB}::_pkcs7_unpad"
+    out.append(FnContract(target=t, params=[("data", p_message()), ("block_size", p_const(BS))],
+                          ensures=[("well-formed-padding-of-1..16-bytes-is-removed-exactly", unpad_post),
+                                   ("result-is-a-prefix-of-the-input", unpad_prefix)],
+                          raises=[Raises("ValueError", when=lambda c: z3.Not(well_padded()), label="only for bytes that do not end in a well-formed padding")],
+                          note="a full padding block (16 x 0x10) is a well-formed padding"))
+    return out
+
+
 def aes_patch_contract(reg):
     reg.ext_models[("setattr", "mod")] = _setattr_module
     reg.ext_models[("setattr", "PyClass")] = _setattr_class
@@ -1960,6 +2087,7 @@ def pdf_contracts(reg):
     reg.method_models[("PdfReader", "decrypt")] = m_pdf_decrypt
     out = []
     out.append(aes_patch_contract(reg))
+    out += pkcs7_contracts(reg)
     t = f"{PDF}::_open_pdf_reader"
     out.append(FnContract(
         target=t, params=[("file_like", p_ext("BytesIO"))], modifies=("file_like",),
@@ -2165,20 +2293,6 @@ def policy(repo, tier):
         ok = bool(res) and all(r.ok for r in res) and fresh and none_init
         why = f"{len(res)} yield(s); parse dominates={all(r.ok for r in res)}; fresh reader={fresh}; __init__ sets _content=None: {none_init}"
     obls.append(ground_obligation("C08/doc_extractor.py::read_doc/policy#parse-of-a-fresh-reader-dominates-the-yield", ok, why, DOC, definite=False))
-    # P3: 7z: an AES-coded header reaches _apply_decoder while the reader is constructed (call chain, syntactic)
-    m = loader.module(SEVEN, repo)
-    chain = ["SevenZipReader.__init__", "SevenZipReader._parse_header", "SevenZipReader._parse_end_header", "SevenZipReader._parse_encoded_header",
-             "SevenZipReader._decompress_folder", "SevenZipReader._apply_decoder"]
-    missing = []
-    for a, b in zip(chain, chain[1:]):
-        fa = m.functions.get(a)
-        if fa is None or not any(isinstance(n, ast.Call) and isinstance(n.func, ast.Attribute) and n.func.attr == b.split(".")[-1] for n in ast.walk(fa)):
-            missing.append(f"{a} -> {b}")
-    ent = m.functions.get("SevenZipFile.__enter__")
-    if ent is None or not any(isinstance(n, ast.Call) and dotted(n.func) == "SevenZipReader" for n in ast.walk(ent)):
-        missing.append("SevenZipFile.__enter__ -> SevenZipReader()")
-    obls.append(ground_obligation("C08/sevenzip.py::SevenZipReader/policy#encoded-header-is-decoded-through-_apply_decoder", not missing,
-                                  "; ".join(missing) or "call chain present", SEVEN, definite=False))
     # P5: entry point "attachments of an e-mail": the file-encrypted error of an attachment's extractor is passed on, not
     #     swallowed by the per-attachment `except Exception` (handler order on the real AST)
     DT = X + "data_types.py"
@@ -2339,7 +2453,8 @@ ASSUMED_MODELS = [
     "bytes.decode('utf-8', errors='ignore') of the ODF manifest is its text (UTF-8 producers; a UTF-16 manifest is outside the model)",
     "struct.Struct('<H'|'<I').unpack_from: little-endian unsigned field, struct.error when out of range",
     "int.from_bytes(b, 'little') for 0..2 bytes",
-    "SevenZipFile(f): __enter__ parses the archive; an AES-coded encoded header makes it raise _apply_decoder's Bad7zFile (call chain checked syntactically)",
+    "SevenZipFile(f).__enter__ parses the archive; when the parse reaches an AES coder of the encoded header the decoder's encryption signal escapes "
+    "(verified link by link: _apply_decoder, _decompress_folder, _parse_encoded_header, _parse_end_header, _parse_header, SevenZipReader.__init__, SevenZipFile.__enter__)",
     "SevenZipFile.needs_password() on the opened archive = verified contract of SevenZipFile/SevenZipReader.needs_password",
     "_EpubContext(f).exists / read_xml_root / close (total); Element.findall('.//{xmlenc}EncryptedData') = all such descendants",
     "pypdf.PdfReader(f), .is_encrypted, .decrypt(''), .pages",
